@@ -93,28 +93,32 @@ DOW = TCP + '''
 Iter g_x;                 /* ghost probe element */
 unsigned g_exec;          /* how often func ran on the probe element */
 unsigned g_got;           /* how often the probe element was inside a chunk returned by getWork */
+bool g_anychunk;          /* ghost: getWork handed out at least one chunk during this call */
 static inline void func_stub(Iter v) { if (v == g_x) g_exec = g_exec + 1; }
 bool getWork_abs(struct ThreadContext* self, Iter* priv_beg, Iter* priv_end, unsigned chunk_size)
 __CPROVER_requires(__CPROVER_is_fresh(priv_beg, sizeof(Iter)) && __CPROVER_is_fresh(priv_end, sizeof(Iter)))
 __CPROVER_ensures(__CPROVER_return_value ==> (0 <= *priv_beg && *priv_beg < *priv_end && *priv_end <= ((Iter)1 << 60)))
 __CPROVER_ensures(g_got == __CPROVER_old(g_got) + ((__CPROVER_return_value && *priv_beg <= g_x && g_x < *priv_end) ? 1u : 0u))
-__CPROVER_assigns(*priv_beg, *priv_end, g_got, __CPROVER_object_whole(self));
+__CPROVER_ensures((g_anychunk != 0) == (__CPROVER_old(g_anychunk) != 0 || __CPROVER_return_value != 0))
+__CPROVER_assigns(*priv_beg, *priv_end, g_got, g_anychunk, __CPROVER_object_whole(self));
 '''
 UNITS.append(Unit(name='getWork_abs', kind='assumed', proto='bool getWork_abs(struct ThreadContext* self, Iter* priv_beg, Iter* priv_end, unsigned chunk_size)', contract='', prelude=[],
                   says='thread-modular view of getWork for doWork: returns some non-empty chunk or fails (the proved contract TC_getWork says which; other threads may have stolen in between); a ghost counts how often the probe element was handed out'))
 UNITS[-1].decl = lambda: ''
 UNITS.append(Unit(
     name='TC_doWork', src=DOALL, within=WITHIN, anchor=r'bool doWork\(F func, const unsigned chunk_size\)', proto='bool TC_doWork(struct ThreadContext* self, unsigned chunk_size)',
-    contract='''__CPROVER_requires(__CPROVER_is_fresh(self, sizeof(*self)) && g_exec <= 1000 && g_got <= 1000)
+    contract='''__CPROVER_requires(__CPROVER_is_fresh(self, sizeof(*self)) && g_exec <= 1000 && g_got <= 1000 && g_anychunk == 0)
 __CPROVER_ensures(g_exec - __CPROVER_old(g_exec) == g_got - __CPROVER_old(g_got))
-__CPROVER_assigns(__CPROVER_object_whole(self), g_exec, g_got)''',
+/* the result tells the caller (and through it the termination detector) whether this call did any work */
+__CPROVER_ensures((__CPROVER_return_value != 0) == (g_anychunk != 0))
+__CPROVER_assigns(__CPROVER_object_whole(self), g_exec, g_got, g_anychunk)''',
     prelude=[DOW], uses=['getWork_abs'],
     lower=[members(F, minimum=1), rx(r'Iter beg\(self->shared_beg\);', 'Iter beg = self->shared_beg;', 1, 1), rx(r'Iter end\(self->shared_end\);', 'Iter end = self->shared_end;', 1, 1),
            rx(r'(?<![\w.>])getWork\(beg, end, chunk_size\)', 'getWork_abs(self, &beg, &end, chunk_size)', 1, 1), rx(r'func\(\*beg\)', 'func_stub(beg)', 1, 1)],
     ghost_prefix='const unsigned e0 = g_exec, t0 = g_got;',
     loops={1: '''
-__CPROVER_assigns(beg, end, didwork, g_exec, g_got, __CPROVER_object_whole(self))
-__CPROVER_loop_invariant(g_exec - e0 == g_got - t0)
+__CPROVER_assigns(beg, end, didwork, g_exec, g_got, g_anychunk, __CPROVER_object_whole(self))
+__CPROVER_loop_invariant(g_exec - e0 == g_got - t0 && (didwork != 0) == (g_anychunk != 0))
 ''', 2: '''
 __CPROVER_assigns(beg, g_exec, self->num_iter)
 __CPROVER_loop_invariant(__CPROVER_loop_entry(beg) <= beg && beg <= end && BND(beg) && BND(end) && g_exec == __CPROVER_loop_entry(g_exec) + ((__CPROVER_loop_entry(beg) <= g_x && g_x < beg) ? 1u : 0u))
